@@ -9,12 +9,15 @@ import TracklibVerif.Drv.Util
   Q = transition table flattened as `for k, for m < n_k, for l < n_{k+1}`.
   reply: `i0,i1,… c0,c1,…` (inferred state index and recorded hmm_cost per epoch), `err:index`, `err:value`.
 
-  sess <N,L,R,YD> <features> <models> <steps>     a history of calls on tracks of `N` epochs (IEEE doubles)
+  sess <N,L,R,YD> <features> <models> <steps> [<coords>]   a history of calls on tracks of `N` epochs (IEEE doubles)
     the user functions are table look-ups: `S(track,k)` = the k-th label list of a model, `Q(s1,s2,k,track)` =
     `QT[k][s1][s2]`, `P(s,y,k,track)` = `PT[k][s][code y]`, `code y` = the digits of the fields of `y` (a number
     `0 ≤ c < R` is the digit `c`, any other number `0`, a state its label mod `R`, a Coords three digits) read as a
     base-`R` number (first field = lowest digit), mod `YD`.  `L` = number of labels.
-    features = `name:c,c,…|…` (numbers)   models = `S/P/Q@…`, `S` = `l,l;e;l` (`e` = no candidate), `P`, `Q` flat
+    features = `name:c,c,…|…` (numbers)   models = `S/P/Q@…`, `S` = `l,l;e;u;l` (`e` = no candidate, `u` = what `S`
+    returned has no length: a generator, None, a bare state), `P`, `Q` flat
+    coords = `<3L numbers>/<3N numbers>`: the coordinates of the state objects by label and of the positions of track 0
+    (default: state `l` at `(l,0,0)`, epoch `k` at `(k,0,0)`); `x`, `y`, `z` among the names of `est` read them
     steps = `|`-separated: `new:h:log:mS:mQ:mP` `log:h:b` `setS:h:m` `setQ:h:m` `setP:h:m` `est:h:t:logarg:mode:names`
             `obs:t:name:k:c` `mk:t:name:c,c,…` `copy:t`   (`h`, `t` = object / track numbers; `copy` appends a track)
     reply = `<per est: status/hmm_inference/hmm_cost>|…#<per track: name:cells;…/positions>|…#<log flag per object>`,
@@ -63,7 +66,7 @@ def epsF : Float := 1e-300
 open TV.Hmm
 
 structure SModel where
-  S : List (List Nat)
+  S : List SRet
   P : List Float
   Q : List Float
 
@@ -82,8 +85,18 @@ structure Sess where
   tracks : Array (Trk Float)
   objs : Array (Option SObj)
   outs : Array String
+  stc : Array (Float × Float × Float) := #[]     -- coordinates of the state objects by label
 
-def numF : Num Float := { logf := Float.log, eps := epsF, big := bigF, zero := 0.0, idx := fun i => i.toFloat }
+def numF : Num Float :=
+  { logf := Float.log
+    eps := epsF
+    big := bigF
+    zero := 0.0
+    idx := fun i => i.toFloat
+    logDom := fun x => x > 0.0 || x.isNaN }
+/-- the scalar constants with the session's table of state coordinates -/
+def numS (stc : Array (Float × Float × Float)) : Num Float :=
+  { numF with stXYZ := fun s => stc.getD s (s.toFloat, 0.0, 0.0) }
 
 /-- the digit the user's `P` reads from one cell -/
 def digit (R : Nat) : Cell Float → Nat
@@ -98,10 +111,10 @@ def digits (R : Nat) : List (ObsItem Float) → List Nat
 def codeOf (R YD : Nat) (y : List (ObsItem Float)) : Nat :=
   ((digits R y).foldr (fun d acc => d + R * acc) 0) % YD
 
-def objOf (s : Sess) (o : SObj) : Option (Obj Float) :=
+def objOf (s : Sess) (o : SObj) : Option (ObjS Float) :=
   match s.models[o.mS]?, s.models[o.mQ]?, s.models[o.mP]? with
   | some ms, some mq, some mp =>
-    some { S := fun _ k => ms.S.getD k []
+    some { S := fun _ k => ms.S.getD k (.sized [])
            Q := fun s1 s2 k _ => mq.Q.getD ((k * s.L + s1) * s.L + s2) 0.0
            P := fun st y k _ => mp.P.getD ((k * s.L + st) * s.YD + codeOf s.R s.YD y) 0.0
            log := o.log }
@@ -125,6 +138,7 @@ def showErr : Option Err → String
   | some .reservedAF => "err:AnalyticalFeatureError"
   | some .emptyTrack => "err:AnalyticalFeatureError"
   | some .unsupported => "unsupported"
+  | some .type => "err:type"
 
 def showTrk (tr : Trk Float) : String :=
   joinWith ";" (tr.cols.map (fun c => c.1 ++ ":" ++ joinWith "," (c.2.map showCell))) ++ "/" ++
@@ -158,7 +172,7 @@ def step (s : Sess) (f : List String) : Option Sess :=
     let o ← (← s.objs[h]?)
     let tr ← s.tracks[t]?
     let ob ← objOf s o
-    let r := estimate numF ob tr (splitTok names ',') lg mode
+    let r := estimateS (numS s.stc) ob tr (splitTok names ',') lg mode
     if r.2.2 == some Err.unsupported then none else
     let out := showErr r.2.2 ++ "/" ++ showCol r.2.1 "hmm_inference" ++ "/" ++ showCol r.2.1 "hmm_cost"
     some { s with objs := s.objs.set! h (some { o with log := r.1.log }), tracks := s.tracks.set! t r.2.1,
@@ -184,10 +198,11 @@ def step (s : Sess) (f : List String) : Option Sess :=
 def model? (N L YD : Nat) (m : String) : Option SModel :=
   match m.splitOn "/" with
   | [sS, sP, sQ] => do
-    let S ← (splitTok sS ';').mapM (fun e => if e == "e" then some [] else natList? e)
+    let S ← (splitTok sS ';').mapM (fun e => if e == "e" then some (SRet.sized []) else if e == "u" then some SRet.unsized
+                                               else (natList? e).map SRet.sized)
     let P ← floatList? sP
     let Q ← floatList? sQ
-    if S.length != N || S.any (·.any (· ≥ L)) || P.length != N * L * YD || Q.length != (N - 1) * L * L then none
+    if S.length != N || S.any (·.items.any (· ≥ L)) || P.length != N * L * YD || Q.length != (N - 1) * L * L then none
     else some { S := S, P := P, Q := Q }
   | _ => none
 
@@ -198,26 +213,44 @@ def feat? (N : Nat) (f : String) : Option (String × List (Cell Float)) :=
     if cs.length != N || name ∈ reserved then none else some (name, cs)
   | _ => none
 
-def runSess (dims feats models steps : String) : String :=
+def triples : List Float → List (Float × Float × Float)
+  | a :: b :: c :: rest => (a, b, c) :: triples rest
+  | _ => []
+
+/-- `<3L numbers>/<3N numbers>`; `none` = malformed -/
+def coords? (N L : Nat) (c : Option String) : Option (List (Float × Float × Float) × List (Float × Float × Float)) :=
+  match c with
+  | none => some ((List.range L).map (fun l => (l.toFloat, 0.0, 0.0)), (List.range N).map (fun k => (k.toFloat, 0.0, 0.0)))
+  | some c =>
+    match c.splitOn "/" with
+    | [a, b] => do
+      let a ← floatList? a
+      let b ← floatList? b
+      if a.length != 3 * L || b.length != 3 * N then none else some (triples a, triples b)
+    | _ => none
+
+def runSess (dims feats models steps : String) (coords : Option String := none) : String :=
   match natList? dims with
   | some [N, L, R, YD] =>
     if N == 0 || L == 0 || R == 0 || YD == 0 then "bad-request" else
-    match (splitTok feats '|').mapM (feat? N), (splitTok models '@').mapM (model? N L YD) with
-    | some fs, some ms =>
+    match (splitTok feats '|').mapM (feat? N), (splitTok models '@').mapM (model? N L YD), coords? N L coords with
+    | some fs, some ms, some (stc, pos0) =>
       if (fs.map (·.1)).eraseDups.length != fs.length then "bad-request" else
       let s0 : Sess := { N := N, L := L, R := R, YD := YD, models := ms.toArray,
-                         tracks := #[{ size := N, cols := fs, pos := List.replicate N none }], objs := #[], outs := #[] }
+                         tracks := #[{ size := N, cols := fs, pos := List.replicate N none, xyz := pos0 }], objs := #[], outs := #[],
+                         stc := stc.toArray }
       match (splitTok steps '|').foldlM (fun s st => step s (st.splitOn ":")) s0 with
       | none => "bad-request"
       | some s =>
         joinWith "|" s.outs.toList ++ "#" ++ joinWith "|" (s.tracks.toList.map showTrk) ++ "#" ++
           joinWith "," (s.objs.toList.map (fun o => match o with | some o => showBool o.log | none => "x"))
-    | _, _ => "bad-request"
+    | _, _, _ => "bad-request"
   | _ => "bad-request"
 
 def handle (cmd : String) (args : List String) : String :=
   match cmd, args with
   | "sess", [dims, feats, models, steps] => runSess dims feats models steps
+  | "sess", [dims, feats, models, steps, coords] => runSess dims feats models steps (some coords)
   | "decodeQ", ["log", n, p, q] =>
     match natList? n, ratList? p, ratList? q with
     | some ns, some pf, some qf =>
